@@ -116,13 +116,19 @@ Section PollLoop.
   | PMore.                        (* the schedule ended inside the loop *)
 
   (* signal step: pending() drains the pipe; every flagged signal is consumed (SIGWINCH queues a
-     Resize event), then a flagged termination signal makes poll return Err(Quit) *)
-  Definition sig_step (s : pstate) : pstate + pstate (* inl = continue, inr = Err(Quit) *) :=
+     Resize event), then a flagged termination signal makes poll return Err(Quit).  On a tty that
+     is gone the size query of the SIGWINCH step fails and its error is returned at once (a
+     termination signal flagged with it is then not reported; the next poll fails on the dead tty). *)
+  Definition sig_step (s : pstate) : pstate + (perr * pstate) (* inl = continue, inr = Err *) :=
     let s1 := mkP (io s) (events s) (pipe s) false false false (sig_closed s) (inq s)
                   (hup s) (saved s) (cur s) (g_owed_wake s) (g_owed_winch s) (g_arrived s)
                   (g_returned s) in
-    let s2 := if winch s then push s1 EvResize else s1 in
-    if termsig s then inr s2 else inl s2.
+    if winch s && hup s then
+      inr (Io, mkP (io s) (events s) (pipe s) false false false (sig_closed s) (inq s)
+                   (hup s) (saved s) (cur s) (g_owed_wake s) false (g_arrived s) (g_returned s))
+    else
+      let s2 := if winch s then push s1 EvResize else s1 in
+      if termsig s then inr (Quit, s2) else inl s2.
 
   (* waker step: read up to 1024 bytes, one Wake event if any byte was read *)
   Definition wake_step (s : pstate) : pstate :=
@@ -176,7 +182,7 @@ Section PollLoop.
     : (pres * pstate) + pstate :=
     let s2 := arrive_all s1 (r_sig r) in
     match (if sig_ready then sig_step s2 else inl s2) with
-    | inr sq => inl (PErr Quit, sq)
+    | inr (e, sq) => inl (PErr e, sq)
     | inl s3 =>
         let s4 := arrive_all s3 (r_wk r) in
         let s5 := if wk_ready then wake_step s4 else s4 in
@@ -189,9 +195,15 @@ Section PollLoop.
 
   Definition events_empty (s : pstate) : bool := match events s with [] => true | _ => false end.
 
+  (* a Wake event waits in the events queue: poll then neither sleeps in select nor waits for the
+     other side to drain the output (every other event is returned only after the output has
+     been flushed, or at the timeout: the flush-first contract of poll) *)
+  Definition wake_queued (s : pstate) : bool :=
+    existsb (fun e => match e with EvWake => true | _ => false end) (events s).
+
   (* the body of one iteration after the delay has been computed; `nodelay` = select(None), which
-     is only used when no event is queued (otherwise the delay is zero).  The result of a
-     completed iteration carries whether select reported the tty writable. *)
+     is only used when no Wake event is queued (otherwise the delay is zero).  The result of a
+     completed iteration carries whether the write step sent at least one byte (`sent_some`). *)
   Definition round_body (s : pstate) (r : round_env) (nodelay : bool)
     : (pres * pstate) + (pstate * bool) (* inl = poll is over; inr = next iteration *) :=
     let s0 := arrive_all s (r_before r) in
@@ -201,14 +213,14 @@ Section PollLoop.
     let sig_ready := sigpipe s0 in
     let wk_ready := 0 <? pipe s0 in
     let in_ready := (match inq s0 with [] => false | _ => true end) || hup s0 in
-    if negb (writable || sig_ready || wk_ready || in_ready) && nodelay && events_empty s then inl (PBlocked, s0)
+    if negb (writable || sig_ready || wk_ready || in_ready) && nodelay && negb (wake_queued s) then inl (PBlocked, s0)
     else
       match write_step s0 r writable with
       | inr e => inl (PErr e, s0)
       | inl s1 =>
           match reads s1 r sig_ready wk_ready in_ready with
           | inl x => inl x
-          | inr s7 => inr (s7, writable)
+          | inr s7 => inr (s7, negb (Nat.eqb (sent (io s1)) (sent (io s0))))
           end
       end.
 
@@ -226,9 +238,10 @@ Section PollLoop.
           else
             match round_body s r (negb finite) with
             | inl (res, s') => (res, s', rest)
-            | inr (s', writable) =>
-                (* an event is ready and the tty takes no more output right now *)
-                if negb (events_empty s') && negb writable then (pop_ret s', rest)
+            | inr (s', sent_some) =>
+                (* a Wake event is queued and the tty took no output in this iteration (not writable,
+                   or writable and the write was refused) *)
+                if wake_queued s' && negb sent_some then (pop_ret s', rest)
                 else poll_loop finite false s' rest
             end
       end.
@@ -248,7 +261,7 @@ Section PollLoop.
   Fixpoint dispose_loop (fuel : nat) (s : pstate) (sched : list round_env)
     : option (pstate * list round_env) :=
     match fuel with
-    | O => None
+    | O => Some (s, sched)                  (* the overall deadline of the wait *)
     | S f =>
         match poll true s sched with
         | (PRet (Some (EvInput t)), s', rest) =>
